@@ -3,6 +3,7 @@ package mon
 
 import (
 	"math/rand"
+	"net/url"
 	"time"
 
 	"github.com/ory/fosite"
@@ -178,10 +179,15 @@ func randStep(s *sim.Sim, r *rand.Rand, w Weights) {
 			t = pick(r, rs).Grant.Latest
 		}
 		as := ""
+		var extra url.Values
 		if r.Intn(14) == 0 {
 			as = otherClient(r, t.Grant.Client)
+			if r.Intn(2) == 0 {
+				// the foreign client authenticates as itself (header) while naming the owner in the body
+				extra = url.Values{"client_id": {t.Grant.Client}}
+			}
 		}
-		s.Refresh(t, as, nil)
+		s.Refresh(t, as, extra)
 	case x < w.Authorize+w.Redeem+w.Refresh+w.Revoke:
 		if len(s.Toks) == 0 {
 			randAuthz(s, r)
